@@ -5,7 +5,7 @@ INDEX = {
     "C01": ["c01"],
     "C02": ["c01"],
     "C03": ["c03", "c20", "c16", "c11", "c09", "c17"],
-    "C04": ["c06"],
+    "C04": ["c04", "c06"],
     "C05": ["c05"],
     "C06": ["c06"],
     "C07": ["c06"],
